@@ -296,5 +296,21 @@ pub fn run(rec: &mut Rec, rng: &mut Rng, thorough: bool) {
             abs_path_case(rec, &u, true);
         }
     }
+    // URIs built from whole tokens: the scheme prefix (and near misses of it) can occur AGAIN inside the authority or the path
+    rec.case("uri-tokens");
+    let toks: [&str; 12] = ["http://", "http:/", "http:", "HTTP://", "https://", "/", "//", "a", "host", ":", ".", "\u{e9}"];
+    for _ in 0..(if thorough { 100000 } else { 8000 }) {
+        let mut u = String::new();
+        if rng.chance(2, 3) {
+            u.push_str("http://");
+        }
+        for _ in 0..rng.below(6) {
+            let t: &&str = rng.pick(&toks[..]);
+            u.push_str(t);
+        }
+        if !u.is_empty() {
+            abs_path_case(rec, u.as_bytes(), true);
+        }
+    }
     let _ = n;
 }
